@@ -82,6 +82,6 @@ Lemma source_shape :
   flat_parent_first = true /\ evolution_propagates = true /\
   decimal_msl_from_request = true /\ decimal_msl_add = 2 /\
   odict_setitem_new_only = true /\ odict_insert_moves = true /\
-  type_attrs_copied = true /\ bytearray_encoding_only_when_given = true /\
+  type_attrs_copied = true /\ column_args_copied = true /\ bytearray_encoding_only_when_given = true /\
   sortcache_per_class = true /\ sortcache_checked = true /\ flat_alias_from_fields = true.
 Proof. repeat split; reflexivity. Qed.
